@@ -160,9 +160,44 @@ def gen_tramp_case(rng, tier):
     return c
 
 
+def gen_backlog_case(rng, tier, op):
+    """a long backlog for ONE subscriber: 200..400 values retained by an unbounded (or >= 150-bounded) ReplaySubject, then a late
+    subscriber (its whole replay is one drain of its ScheduledObserver), a few live values and usually a terminal; a second
+    observer subscribed from the start sees every value live"""
+    n = rng.randrange(200, 401)
+    early = rng.random() < 0.5
+    observers = [{"err": True, "react": []} for _ in range(2 if early else 1)]
+    if rng.random() < 0.3:
+        # the late subscriber unsubscribes itself in the middle of its replay
+        observers[0]["react"] = [[rng.randrange(100, 200), [["unsub", 0]]]]
+    t = rng.choice([0, 1, 5])
+    calls = []
+    if early:
+        calls.append([t, ["sub", 1]])
+    step = rng.choice([[0], [1], [0, 0, 1], [0, 1, 2]])
+    for k in range(n):
+        t += rng.choice(step)
+        calls.append([t, ["next", enc(k if rng.random() < 0.9 else rng.choice(VALS))]])
+    t += rng.choice([0, 1, 10])
+    calls.append([t, ["sub", 0]])
+    for k in range(rng.randrange(0, 4)):
+        t += rng.choice([0, 1, 3])
+        calls.append([t, ["next", enc(n + k)]])
+    r = rng.random()
+    if r < 0.8:
+        t += rng.choice([0, 1, 3])
+        calls.append([t, ["completed"] if r < 0.55 else ["error", "e0"]])
+    buffer = rng.choice([None, None, None, rng.randrange(150, n + 1)])
+    window = rng.choice([None, None, t + 1])
+    return {"op": op, "buffer": buffer, "window": window, "observers": observers, "calls": calls}
+
+
 def cases(rng, tier):
     n = fw.tier_scale(tier, 3000, 80000)
+    every = n // fw.tier_scale(tier, 8, 40)
     for i in range(n):
+        if i % every == every // 2:
+            yield gen_backlog_case(rng, tier, "replay_tramp" if (i // every) % 2 else "replay")
         yield gen_tramp_case(rng, tier) if i % 4 == 3 else gen_case(rng, tier)
 
 
@@ -474,7 +509,9 @@ def bucket(case, out):
     yield "buffer:" + ("None" if case["buffer"] is None else str(case["buffer"]))
     yield "window:" + ("None" if case["window"] is None else "set")
     n = len(case["calls"])
-    yield "calls:" + ("1-5" if n <= 5 else "6-12" if n <= 12 else "13-30" if n <= 30 else ">30")
+    yield "calls:" + ("1-5" if n <= 5 else "6-12" if n <= 12 else "13-30" if n <= 30 else "31-100" if n <= 100 else ">100")
+    if any(len(log) >= 129 and sum(1 for t, _ in log if t == log[0][0]) >= 129 for log in out["logs"]):
+        yield "long-backlog(>=129 notifications delivered to one subscriber in one drain)"
     yield f"nobs:{len(case['observers'])}"
     expected, cut, stats, problems = analyse(case, out)
     for s in sorted(stats):
@@ -529,6 +566,7 @@ def shrink(case):
 
 RULE = ("timed call histories of 1..30 calls (thorough: ..60) of sub/unsub/next/error/completed/dispose over 1..5 observers with reaction scripts (unsubscribe / subscribe / dispose / "
         "re-entrant on_next, on_error, on_completed into the same subject from inside a callback), "
+        "plus a few long-backlog histories (200..400 values retained, then a late subscriber, live values and a terminal; both schedulers), "
         "in about a third of the cases with subscribers that pass subscribe() a scheduler of their own (the subject's one, ImmediateScheduler, or another never-started "
         "virtual-time scheduler whose clock is at 0 or far ahead), "
         "scheduled on a TestScheduler (3/4 of the cases; arbitrary, also unsorted and equal, virtual times; bursts of >100 same-instant actions that trigger the "
